@@ -14,7 +14,7 @@ TRUSTED_BE = [
 
 
 def run_be(PID, prop_file, gen, monitor, nontrivial, rule, n_quick=400, n_thorough=20000, trusted=None, corpus_cases=None,
-           known_match=None, extra_cov=None):
+           known_match=None, extra_cov=None, extra_phase=None):
     tier = os.environ.get('VERIF_TIER_OVERRIDE')  # unused
     def run(tier):
         ck = Check(PID, tier)
@@ -79,6 +79,7 @@ def run_be(PID, prop_file, gen, monitor, nontrivial, rule, n_quick=400, n_thorou
         if known_match:
             km = lambda line, impl, msg: known_match(byline.get(line), impl, msg)
         dis, mons = correspond(ck, 'M-BE vs backend driver', lines, ml, il, monitor=mon, shrink=shrink, known_match=km)
+        phase_cov = extra_phase(ck, tier, broken) if extra_phase else None   # optional property-specific search (may add violations)
         if broken and not ck.violations:
             ck.violation('no-failing-input-found', '; '.join(broken))
         nt = len(set(l for l, i in zip(lines, il) if not i.startswith(('CRASH', 'HANG', 'NOOUTPUT')) and nontrivial(byline[l], BC.parse_obs(i))))
@@ -92,6 +93,7 @@ def run_be(PID, prop_file, gen, monitor, nontrivial, rule, n_quick=400, n_thorou
                'queue_kinds': {'bounded_blocking': sum(1 for c in cobjs if c.dropping == 0), 'bounded_dropping': sum(1 for c in cobjs if c.dropping == 1), 'unbounded_blocking': sum(1 for c in cobjs if c.dropping == 2)}}
         cov['monitor_only_cases_unbounded_queue'] = len(mon_only)
         if extra_cov: cov.update(extra_cov)
+        if phase_cov: cov.update(phase_cov)
         return ck.finish(trusted=trusted or TRUSTED_BE, samples=[lines[0][:600], lines[-1][:600]], rule=rule,
                          evaluations=len(lines), distinct_nontrivial=nt, traces=len(lines) - len(dis) - len(mons), extra_cov=cov)
     return run
